@@ -13,7 +13,7 @@ def search(ctx):
 
 def run(ctx):
     ctx.extract(["optables", "evalarms"])
-    ctx.prove(PROPS, extra_modules=["RotoV.Lemmas.Scalar", "RotoV.Model.RustStd", "RotoV.Model.Lir", "RotoV.Model.Clif"])
+    ctx.prove(PROPS, extra_modules=["RotoV.Lemmas.ScalarBase", "RotoV.Lemmas.ScalarDiv", "RotoV.Lemmas.Scalar", "RotoV.Lemmas.ScalarEval", "RotoV.Model.RustStd", "RotoV.Model.Lir", "RotoV.Model.Clif"])
     if ctx.build_harness("c20"):
         ctx.harness("c20", ["run", ctx.seed, ctx.tier], timeout=3000)
     ctx.trusted += [
